@@ -249,7 +249,10 @@ Proof.
 Qed.
 
 Lemma pdist_scalar k a b : pdist k [a] [b] = pd1 k a b.
-Proof. destruct k; simpl; lia. Qed.
+Proof.
+  destruct k; cbn [pdist pd1]; [cbn [pdist_sq]; lia|].
+  unfold pdist_abs. cbn [pdist_sq]. rewrite Z.add_0_r. rewrite <- Z.abs_square. rewrite Z.sqrt_square by apply Z.abs_nonneg. reflexivity.
+Qed.
 
 Section LB.
 Variable u : usettings.
